@@ -146,15 +146,27 @@ Definition decode_cc_n (n : nat) (d : list N) : res N :=
 
 Definition check_cc (cc : N) : M unit := if cc =? 0 then mret tt else mfail (CCError cc).
 
-(* ChannelAuthenticationCapabilities._from_response + get_max_auth_type:
-   support bits none=0 md2=1 md5=2 straight=4 oem=5; preference md5, md2, straight, oem, none *)
-Definition max_auth_type (support : N) : option N :=
-  if N.testbit support 2 then Some AUTH_MD5
-  else if N.testbit support 1 then Some AUTH_MD2
-  else if N.testbit support 4 then Some AUTH_PASSWORD
-  else if N.testbit support 5 then Some AUTH_OEM
-  else if N.testbit support 0 then Some AUTH_NONE
-  else None.
+(* ChannelAuthenticationCapabilities._from_response + get_max_auth_type(supported_auth_types)
+   [repaired code, fixes/F6-auth-type-implemented.diff]: support bits none=0 md2=1 md5=2
+   straight=4 oem=5; preference md5, md2, straight, oem, none; a type that is offered but not in
+   supported_auth_types (when given) is skipped *)
+Definition auth_pref : list (N * N) :=          (* (support bit, Session auth type constant) *)
+  [(2, AUTH_MD5); (1, AUTH_MD2); (4, AUTH_PASSWORD); (5, AUTH_OEM); (0, AUTH_NONE)].
+Fixpoint pick_auth (pref : list (N * N)) (support : N) (supported : option (list N)) : option N :=
+  match pref with
+  | [] => None
+  | (bit, a) :: r =>
+      if N.testbit support bit then
+        match supported with
+        | Some l => if existsb (N.eqb a) l then Some a else pick_auth r support supported
+        | None => Some a
+        end
+      else pick_auth r support supported
+  end.
+Definition max_auth_type (support : N) (supported : option (list N)) : option N :=
+  pick_auth auth_pref support supported.
+(* IpmiMsg.SUPPORTED_AUTH_TYPES *)
+Definition SUPPORTED_AUTH_TYPES : list N := [AUTH_NONE; AUTH_PASSWORD; AUTH_MD5].
 
 Definition NETFN_APP := 6.
 
@@ -200,7 +212,12 @@ Definition establish (c : cfg) (rnd : N) : M unit :=
   dom _ <- mmod (fun st => mkL (l_so st) false (l_rseq st) (l_nseq st) (l_keep st));   (* self._session = None *)
   dom _ <- ping;
   dom support <- get_channel_auth_cap c;
-  dom _ <- mmod (upd_so (fun s => mkSess (max_auth_type support) (s_sid s) (s_seq s) (s_act s) (s_pw s)));
+  dom _ <- mmod (upd_so (fun s => mkSess (max_auth_type support (Some SUPPORTED_AUTH_TYPES))
+                                          (s_sid s) (s_seq s) (s_act s) (s_pw s)));
+  dom _ <- (match max_auth_type support (Some SUPPORTED_AUTH_TYPES) with
+            | None => mfail NotSupported          (* no supported authentication type offered *)
+            | Some _ => mret tt
+            end);
   dom ch <- get_session_challenge c;
   dom _ <- mmod (upd_so (fun s => mkSess (s_auth s) (fst ch) (s_seq s) (s_act s) (s_pw s)));
   dom _ <- mmod (fun st => mkL (l_so st) true (l_rseq st) (l_nseq st) (l_keep st));    (* self._session = session *)
